@@ -430,6 +430,8 @@ def func_oracle(f, args, impl):
             want = F.run(f, a)
         except F.Budget:
             continue
+        if isinstance(want, int) and abs(want) >= 10 ** 15:
+            want = "big:%d" % (want % 1000000007)
         if got != want:
             return ("func-value", f"{f.name}({', '.join(map(str, a))}): the emitted function gives {got}, EXPRESS gives {want}")
     return None
